@@ -34,7 +34,7 @@ def harness_module(pid):
 def run_worker(modname, tier, cond_name, timeout_wall, scratch, extra_env=None, mode="check", payload=None):
     out = os.path.join(scratch, "res_" + hashlib.sha1((mode + cond_name + str(payload)).encode()).hexdigest()[:12] + ".json")
     env = dict(os.environ)
-    env["VERIF_SCRATCH"] = scratch
+    env["VERIF_SCRATCH"] = os.path.join(scratch, "w_" + hashlib.sha1((mode + cond_name + str(payload)).encode()).hexdigest()[:12])  # private to this worker
     env["PYTHONPATH"] = ROOT + os.pathsep + env.get("PYTHONPATH", "")
     env["PYTHONHASHSEED"] = env.get("PYTHONHASHSEED", "0")
     env.pop("CI", None)
